@@ -3,30 +3,38 @@
 Explicit-state exploration of the real `cssutils.profiles.Profiles` object.  A state is the history
 of registry operations that reaches it, replayed on a FRESH `Profiles()` (never the process-global
 `cssutils.profile`).  The search is breadth-first from {built-in registry, registry emptied with
-removeProfile(all=True)} x {definition dictionaries copied per call, definition dictionaries shared
-by all calls of a history}, closed under a cap on the number of custom profiles registered at the
-same time (a finite space, so the search ends by exhaustion unless the depth bound cuts it - both
-are reported).  Every state and every transition is judged:
+removeProfile(all=True)} x {definition dictionaries copied for every call, the same definition
+dictionary objects passed on every call of a history}, under a cap on the number of custom profiles
+registered at the same time (a finite space: on a tree without history-dependent state it closes, on
+the pinned tree stale macro environments multiply the states and the depth bound ends the search -
+which of the two happened is reported as `closure_reached_under_cap`).  The half of the search that
+shares the dictionaries uses addProfile / removeProfile / removeProfile(all) only (addProfiles
+copies its arguments itself).  Every state and every transition is judged:
 
   C14.ops        no registry operation of the alphabet raises
   C14.valid_iff  validate / validateWithProfile / knownNames / profiles / propertiesByProfile() equal
                  the reference model mc.model.ref_profiles (a pure function of the registered
                  definitions: no history, no code of the registry)
-  C14.contents   the observation equals the observation of the *direct construction* of the same
-                 contents (fresh Profiles, one addProfile per registered profile in order, one
-                 defaultProfiles assignment); hence any two states with equal contents agree
-  C14.addremove  obs(s . add X . remove X) == obs(s) for every X not registered (addProfile and
-                 addProfiles with one or two profiles)
+  C14.contents   differential: all states with the same contents (ordered registered profiles,
+                 defaultProfiles) must have the same observation.  The parent groups every state by
+                 contents; for a contents seen with two observations each observation is compared
+                 with the *direct construction* of the contents (fresh Profiles, one addProfile per
+                 profile in order, one defaultProfiles assignment) to say which history is to blame
+  C14.addremove  obs(s . add X . remove X) == obs(s) for every X not registered (addProfile, and
+                 addProfiles with one or two profiles removed again in reverse order)
   C14.defaults   for every subset D of size <= 2 of the registered menu profiles (and None):
                  assigning defaultProfiles = D leaves validate() and the `valid` component of
                  validateWithProfile unchanged; `matching` and the reported profile are those of the
                  reference model; assigning the old value back restores the whole state
   C14.unknown    removeProfile(<not registered>) raises NoSuchProfileException and changes nothing
 
-Signatures: `clause|symptom|essential set of operation kinds` where the essential set is computed by
-counterfactuals on the witness history (delete one operation or two, split addProfiles, replace
-addProfiles([X]) by addProfile(X), replace the emptied seed by built-in + removeProfile(all=True),
-replace shared definition dictionaries by copies) until none applies.
+Signatures: `clause|symptom|essential set of operation kinds`.  The workers record violations under a
+provisional group (clause, symptom, seed, operation kinds of the history); the parent takes the
+smallest witness of every group and minimises it by counterfactuals (delete one operation or two,
+split addProfiles, replace addProfiles([X]) by addProfile(X), replace the emptied seed by built-in +
+removeProfile(all=True), replace shared definition dictionaries by copies) to a fixpoint; the kinds of
+the operations that are left (+ `definitions=shared` if sharing is needed) are the essential set, the
+minimised history is the recorded witness.  `replay` runs the same minimisation on the one case.
 """
 import copy
 import hashlib
@@ -45,7 +53,7 @@ RULE = (
     'states = histories over {addProfile(X), addProfiles([X]), addProfiles([X,Y]), removeProfile(X), removeProfile(all=True), '
     'defaultProfiles = D} replayed on a fresh Profiles(), deduplicated on an over-fine key (ordered names, defaultProfiles, the '
     'observation, the macro environment, every compiled pattern, the raw tables, the state of the caller\'s definition dictionaries); '
-    'BFS from 4 seeds, closed under a cap on simultaneously registered custom profiles; in every state additionally every '
+    'BFS from 4 seeds to the depth bound (or closure) under a cap on simultaneously registered custom profiles; in every expanded state additionally every '
     'defaultProfiles subset of size <= 2 and every removal of a not registered name is applied and judged. '
     'Non-trivial = the history contains a profile with macros (P3..P6 or the removable built-in) or removeProfile(all=True)'
 )
@@ -886,15 +894,16 @@ def minimise(case, tier, clause, symptom):
         c = variant(history=[['seed', 'builtin', h[0][2]], ['removeall']] + h[1:])
         if ok(c):
             case = c
-    h = case['history']
-    if h[0][2] == 'shared':
-        c = variant(history=[['seed', h[0][1], 'copy']] + h[1:])
-        if ok(c):
-            case = c
     changed = True
     while changed and budget[0] > 0:
         changed = False
         h = case['history']
+        if h[0][2] == 'shared':
+            # (again after every other reduction: a shorter history may no longer need the shared dictionaries)
+            c = variant(history=[['seed', h[0][1], 'copy']] + h[1:])
+            if ok(c):
+                case, changed = c, True
+                continue
         for i in range(1, len(h)):
             c = variant(history=h[:i] + h[i + 1:])
             if ok(c):
